@@ -741,6 +741,8 @@ func makeDerived(cfg string) error {
 	var baseDoc []byte
 	steps := [][]string{
 		{"merge", "--bookmarks=false", "MULTI.pdf", "test.pdf", "test.pdf", "test.pdf", "test.pdf"},
+		{"merge", "--bookmarks=false", "SEL0.pdf", "test.pdf", "test.pdf", "test.pdf", "test.pdf", "test.pdf", "test.pdf"},
+		{"stamp", "add", "-m", "text", "--", "page %p", "rot:0", "SEL0.pdf", "SEL.pdf"},
 		{"properties", "add", "go.pdf", "PROP.pdf", "alpha = beta"},
 		{"encrypt", "--upw", "u1", "--opw", "o1", "go.pdf", "ENC.pdf"},
 		{"attachments", "add", "go.pdf", "att.txt"},
@@ -752,7 +754,7 @@ func makeDerived(cfg string) error {
 		if rr.exit != 0 {
 			return fmt.Errorf("fixture step %v: exit %d: %s", s, rr.exit, rr.stderr)
 		}
-		if s[0] == "merge" {
+		if s[0] == "merge" && s[2] == "MULTI.pdf" {
 			b, err := os.ReadFile(filepath.Join(d, "MULTI.pdf"))
 			must(err)
 			baseDoc = b
@@ -767,7 +769,27 @@ func makeDerived(cfg string) error {
 			must(os.WriteFile(filepath.Join(d, "go.pdf"), baseDoc, 0o644))
 		}
 	}
-	for _, n := range []string{"ENC.pdf", "BM.pdf", "KW.pdf", "MULTI.pdf", "PROP.pdf"} {
+	// reference: every page of SEL.pdf extracted on its own; the pages must be distinguishable
+	must(os.MkdirAll(filepath.Join(d, "ref"), 0o755))
+	if rr := runBin(cfg, d, nil, "extract", "-m", "page", "SEL.pdf", "ref"); rr.exit != 0 {
+		return fmt.Errorf("reference extraction: exit %d: %s", rr.exit, rr.stderr)
+	}
+	selRef = map[string]int{}
+	for p := 1; p <= selPages; p++ {
+		b, err := os.ReadFile(filepath.Join(d, "ref", fmt.Sprintf("SEL_page_%d.pdf", p)))
+		if err != nil {
+			return err
+		}
+		n, err := normPDF(b, "", "")
+		if err != nil {
+			return err
+		}
+		if _, dup := selRef[n]; dup {
+			return fmt.Errorf("pages of the selection fixture are not distinguishable")
+		}
+		selRef[n] = p
+	}
+	for _, n := range []string{"ENC.pdf", "BM.pdf", "KW.pdf", "MULTI.pdf", "PROP.pdf", "SEL.pdf"} {
 		b, err := os.ReadFile(filepath.Join(d, n))
 		if err != nil {
 			return err
@@ -1401,6 +1423,222 @@ func runMulti(mc multiCmd, idx int, cfg string) []*outcome {
 	return outs
 }
 
+// ------------------------------------------------------------------ part D: page selections
+
+const selPages = 6
+
+var selRef map[string]int // normalised single-page document -> page number of SEL.pdf
+
+// selections with negated terms (!N, nN), ranges minus pages, l, odd/even with negation,
+// yielding 0, 1 and >= 2 pages of a 6 page document
+var selections = []string{
+	"2-3,!2", "1-3,!1,!2", "5,n6", "!2", "n3", "l", "l,!l", "odd,!1,!3", "even,n2,n4", "odd,!1",
+	"even,!2", "2,!2", "-2,!1", "4-,!5-", "1-l,!2-l", "3,!l", "1-3", "1-3,!2", "2", "7", "1-l,n1,n2,n3,n4,n5",
+	"odd,n3-l", "!odd", "even,!even",
+}
+
+func selMapArg(sel string) (string, bool) {
+	ps, err := api.ParsePageSelection(sel)
+	if err != nil {
+		return "", false
+	}
+	m, err := api.PagesForPageSelection(selPages, ps, true, false)
+	if err != nil {
+		return "", false
+	}
+	keys := make([]int, 0, len(m))
+	for k := range m {
+		keys = append(keys, k)
+	}
+	sort.Ints(keys)
+	var l []int
+	for _, k := range keys {
+		v := 0
+		if m[k] {
+			v = 1
+		}
+		l = append(l, k, v)
+	}
+	return nlist(l), true
+}
+
+// extract -m page -p SEL … : directory (file mode) vs "-" (stdout mode), file and stdin input
+func runSelStdout(sel string, idx int, cfg string) *outcome {
+	rec := recipe{name: "sel-extract-page-stdout", args: []string{"extract", "-m", "page", "-p", sel, "IN", "-"}}
+	o := &outcome{rec: rec, variant: sel}
+	dir := filepath.Join(scratch, fmt.Sprintf("d%d", idx))
+	must(os.MkdirAll(filepath.Join(dir, "fd"), 0o755))
+	sample := fixture("SEL.pdf")
+	must(os.WriteFile(filepath.Join(dir, "in.pdf"), sample, 0o644))
+	defer os.RemoveAll(dir)
+	fr := runBin(cfg, dir, nil, "extract", "-m", "page", "-p", sel, "in.pdf", "fd")
+	ents, _ := os.ReadDir(filepath.Join(dir, "fd"))
+	var fileNorm string
+	if fr.exit == 0 && len(ents) == 1 {
+		b, _ := os.ReadFile(filepath.Join(dir, "fd", ents[0].Name()))
+		fileNorm, _ = normPDF(b, "", "")
+	}
+	marg, haveMap := selMapArg(sel)
+	for _, v := range []struct {
+		name, in string
+		stdin    []byte
+	}{{"file-in", "in.pdf", nil}, {"stdin-in", "-", sample}} {
+		sr := runBin(cfg, dir, v.stdin, "extract", "-m", "page", "-p", sel, v.in, "-")
+		input := fmt.Sprintf("pdfcpu extract -m page -p '%s' %s -   (6 page document; file mode wrote %d file(s), exit %d)", sel, v.in, len(ents), fr.exit)
+		fail := func(class, detail string) { o.fails = append(o.fails, [3]string{class, input, trunc(detail, 400)}) }
+		obs := "0"
+		bad := false
+		if sr.exit == 0 {
+			obs = "1,ff"
+			if n, err := normPDF(sr.stdout, "", ""); err == nil {
+				if p, ok := selRef[n]; ok {
+					obs = fmt.Sprintf("1,%x", p)
+				}
+			}
+		}
+		if haveMap {
+			o.cases = append(o.cases, [3]string{"seldec", marg, obs})
+		}
+		switch {
+		case fr.exit != 0:
+			// the selection is refused in file mode: stdout mode must refuse it too
+			if sr.exit == 0 || len(sr.stdout) != 0 {
+				fail("selection-refused-in-file-mode-only", fmt.Sprintf("stdout mode exit %d, %d bytes", sr.exit, len(sr.stdout)))
+				bad = true
+			}
+		case len(ents) == 1:
+			if sr.exit != 0 {
+				fail("selection-one-page-refused-on-stdout", fmt.Sprintf("exit %d: %s", sr.exit, trunc(string(sr.stderr), 200)))
+				bad = true
+			} else if n, err := normPDF(sr.stdout, "", ""); err != nil || n != fileNorm {
+				fail("selection-stdout-page-differs-from-file-mode", fmt.Sprintf("stdout page %s, file mode %s", obs, ents[0].Name()))
+				bad = true
+			}
+		default:
+			if sr.exit == 0 {
+				fail("selection-not-one-page-written-to-stdout", fmt.Sprintf("stdout carries page %s although file mode selects %d pages", obs, len(ents)))
+				bad = true
+			} else if sr.exit != 1 {
+				fail("selection-failure-exit-not-1", fmt.Sprintf("exit %d", sr.exit))
+				bad = true
+			}
+		}
+		if sr.exit != 0 && len(sr.stdout) != 0 {
+			fail("selection-failure-stdout-not-empty", trunc(string(sr.stdout), 100))
+			bad = true
+		}
+		if sr.exit != 0 && len(bytes.TrimSpace(sr.stderr)) == 0 {
+			fail("selection-failure-no-error-message", "")
+			bad = true
+		}
+		if !bad {
+			o.ok()
+		}
+	}
+	o.counters = append(o.counters, fmt.Sprintf("D:file-mode-pages=%d", min(len(ents), 2)))
+	return o
+}
+
+type selCmd struct {
+	name  string
+	args  []string // SEL, IN, OUT / OUTDIR placeholders
+	dir   bool
+	quick bool
+}
+
+var selCmds = []selCmd{
+	{name: "trim", args: []string{"trim", "-p", "SEL", "IN", "OUT"}, quick: true},
+	{name: "collect", args: []string{"collect", "-p", "SEL", "IN", "OUT"}, quick: true},
+	{name: "rotate", args: []string{"rotate", "-p", "SEL", "IN", "90", "OUT"}},
+	{name: "pages-remove", args: []string{"pages", "remove", "-p", "SEL", "IN", "OUT"}},
+	{name: "stamp-add", args: []string{"stamp", "add", "-p", "SEL", "-m", "text", "--", "x", "rot:0", "IN", "OUT"}},
+	{name: "crop", args: []string{"crop", "-p", "SEL", "--", "[0 0 100 100]", "IN", "OUT"}},
+	{name: "extract-pages", args: []string{"extract", "-m", "page", "-p", "SEL", "IN", "OUTDIR"}, dir: true},
+	{name: "extract-content", args: []string{"extract", "-m", "content", "-p", "SEL", "IN", "OUTDIR"}, dir: true},
+	{name: "extract-images", args: []string{"extract", "-m", "image", "-p", "SEL", "IN", "OUTDIR"}, dir: true},
+}
+
+func runSelCmd(sc selCmd, sel string, idx int, cfg string) *outcome {
+	args := make([]string, len(sc.args))
+	for i, a := range sc.args {
+		if a == "SEL" {
+			a = sel
+		}
+		args[i] = a
+	}
+	rec := recipe{name: "sel-" + sc.name, args: args}
+	o := &outcome{rec: rec, variant: sel}
+	dir := filepath.Join(scratch, fmt.Sprintf("e%d", idx))
+	must(os.MkdirAll(filepath.Join(dir, "fd"), 0o755))
+	must(os.MkdirAll(filepath.Join(dir, "sd"), 0o755))
+	sample := fixture("SEL.pdf")
+	must(os.WriteFile(filepath.Join(dir, "in.pdf"), sample, 0o644))
+	defer os.RemoveAll(dir)
+	input := "pdfcpu " + strings.Join(args, " ")
+	fail := func(class, detail string) { o.fails = append(o.fails, [3]string{class, input, trunc(detail, 400)}) }
+	var fr, sr runRes
+	if sc.dir {
+		fr = runBin(cfg, dir, nil, subst(args, "in.pdf", "", "fd", "")...)
+		sr = runBin(cfg, dir, sample, subst(args, "-", "", "sd", "")...)
+	} else {
+		fr = runBin(cfg, dir, nil, subst(args, "in.pdf", "f.pdf", "", "")...)
+		sr = runBin(cfg, dir, sample, subst(args, "-", "-", "", "")...)
+	}
+	if (fr.exit == 0) != (sr.exit == 0) {
+		fail("selection-exit-status-differs:"+sc.name, fmt.Sprintf("file %d (%s) stream %d (%s)", fr.exit, trunc(string(fr.stderr), 150), sr.exit, trunc(string(sr.stderr), 150)))
+		return o
+	}
+	if sr.exit != 0 {
+		if !sc.dir && len(sr.stdout) != 0 {
+			fail("selection-failure-stdout-not-empty:"+sc.name, trunc(string(sr.stdout), 100))
+			return o
+		}
+		o.ok()
+		return o
+	}
+	if sc.dir {
+		fe, _ := os.ReadDir(filepath.Join(dir, "fd"))
+		se, _ := os.ReadDir(filepath.Join(dir, "sd"))
+		if len(fe) != len(se) {
+			fail("selection-output-count-differs:"+sc.name, fmt.Sprintf("file mode %d files, stdin mode %d files", len(fe), len(se)))
+			return o
+		}
+		for i := range fe {
+			a, _ := os.ReadFile(filepath.Join(dir, "fd", fe[i].Name()))
+			b, _ := os.ReadFile(filepath.Join(dir, "sd", se[i].Name()))
+			same := bytes.Equal(a, b)
+			if bytes.HasPrefix(a, []byte("%PDF-")) {
+				an, e1 := normPDF(a, "", "")
+				bn, e2 := normPDF(b, "", "")
+				same = e1 == nil && e2 == nil && an == bn
+			}
+			if !same || strings.TrimPrefix(fe[i].Name(), "in") != strings.TrimPrefix(se[i].Name(), "stdin") {
+				fail("selection-output-differs:"+sc.name, fe[i].Name()+" vs "+se[i].Name())
+				return o
+			}
+		}
+		o.ok()
+		return o
+	}
+	fb, err := os.ReadFile(filepath.Join(dir, "f.pdf"))
+	if err != nil {
+		fail("file-variant-no-output:sel-"+sc.name, err.Error())
+		return o
+	}
+	fn, e1 := normPDF(fb, "", "")
+	sn, e2 := normPDF(sr.stdout, "", "")
+	if e1 != nil || e2 != nil {
+		fail("selection-output-unreadable:"+sc.name, fmt.Sprint(e1, e2))
+		return o
+	}
+	if fn != sn {
+		fail("selection-document-differs:"+sc.name, firstDiff(fn, sn))
+		return o
+	}
+	o.ok()
+	return o
+}
+
 func firstDiff(a, b string) string {
 	n := len(a)
 	if len(b) < n {
@@ -1560,8 +1798,49 @@ func main() {
 			mresults[i] = runMulti(mcs[i], i, cfg)
 		}(i)
 	}
+	// part D
+	type job func() *outcome
+	var djobs []job
+	for i, sel := range selections {
+		i, sel := i, sel
+		djobs = append(djobs, func() *outcome { return runSelStdout(sel, i, cfg) })
+	}
+	n := 0
+	for ci, sc := range selCmds {
+		for si, sel := range selections {
+			n++
+			if !thorough && !(sc.quick && (si+ci+int(r.Seed))%4 == 0) {
+				continue
+			}
+			sc, sel, k := sc, sel, n
+			djobs = append(djobs, func() *outcome { return runSelCmd(sc, sel, k, cfg) })
+		}
+	}
+	dresults := make([]*outcome, len(djobs))
+	for i := range djobs {
+		wg.Add(1)
+		go func(i int) {
+			defer wg.Done()
+			sem <- struct{}{}
+			defer func() { <-sem }()
+			defer func() {
+				if p := recover(); p != nil {
+					o := &outcome{rec: recipe{name: "selection"}, variant: "harness"}
+					o.fail("harness-panic:selection", fmt.Sprint(p))
+					dresults[i] = o
+				}
+			}()
+			dresults[i] = djobs[i]()
+		}(i)
+	}
 	wg.Wait()
 	results = append(results, mresults...)
+	for _, o := range dresults {
+		if o != nil {
+			o.counters = append(o.counters, "D:"+o.rec.name)
+			results = append(results, []*outcome{o})
+		}
+	}
 	for _, outs := range results {
 		for _, o := range outs {
 			for _, c := range o.cases {
